@@ -2,7 +2,7 @@ SPECIFICATION GenSpec
 CONSTANTS
   NTop = 2
   KindsCb = {"noop", "raise", "failcoro", "addcb", "addto"}
-  KindsTo = {"noop", "addcb", "rm"}
+  KindsTo = {"noop", "rm"}
   KindsFut = {"noop"}
   Delays = {0, 1}
   ChildDelays = {0, 1}
